@@ -285,3 +285,82 @@ def entity_canaries(sx, p):
         finally:
             os.unlink(path)
             os.unlink(dtd)
+
+
+# ---------------------------------------------------------------- SOAP with attachments (multipart/related) parse path
+from spyne.model.binary import ByteArray
+
+
+class SwaSvc(Service):
+    @rpc(Unicode, ByteArray, _returns=Unicode)
+    def echo(ctx, s, data):
+        SEEN['args'] = (s, data)
+        return s
+
+
+SWA_APPS = {}
+SWA_ATTACKS = ['none', 'internal entity in text', 'entity chain in text', 'external entity in text', 'internal entity in attribute',
+               'entity expansion bomb in text']
+
+
+@harness('C17', params=[(p, a) for p in ('Soap11', 'Soap12') for a in SWA_ATTACKS], label=lambda p: '%s %s' % p,
+         functions=['spyne.protocol.soap.mime.collapse_swa', 'spyne.protocol.soap.mime._join_attachment',
+                    'spyne.protocol.soap.soap11.Soap11.create_in_document'],
+         bounds={'attacks': 'the same attack documents sent as the root part of a multipart/related (SOAP with attachments) '
+                            'request with one attachment that is spliced into the envelope, through WsgiApplication; '
+                            'attachment referenced by Content-ID or by Content-Location'})
+def swa_entity_canaries(sx, p):
+    """the multipart parse path is as safe as the plain one: no entity replacement text reaches user code or the response,
+    and nothing escapes the WSGI callable"""
+    import io, os, tempfile
+    from spyne.server.wsgi import WsgiApplication
+    pname, attack = p
+    if pname not in SWA_APPS:
+        SWA_APPS[pname] = Application([SwaSvc], 'tns', in_protocol=PROTS[pname](), out_protocol=PROTS[pname]())
+    app = SWA_APPS[pname]
+    by = sx.choose('attachment_by', ['Content-ID', 'Content-Location'])
+    fd, path = tempfile.mkstemp(suffix='.txt')
+    os.write(fd, b'FILE-CANARY-0815')
+    os.close(fd)
+    try:
+        doctype, s_el, data_attr = '', '<s>plain</s>', ''
+        if attack == 'internal entity in text':
+            doctype, s_el = '<!DOCTYPE Envelope [<!ENTITY x "INT-CANARY-0815">]>', '<s>a&x;b</s>'
+        elif attack == 'entity chain in text':
+            doctype = '<!DOCTYPE Envelope [<!ENTITY a "INT-CANARY-0815"><!ENTITY b "&a;&a;"><!ENTITY c "&b;&b;">]>'
+            s_el = '<s>x&c;y</s>'
+        elif attack == 'external entity in text':
+            doctype, s_el = '<!DOCTYPE Envelope [<!ENTITY x SYSTEM "file://%s">]>' % path, '<s>a&x;b</s>'
+        elif attack == 'internal entity in attribute':
+            doctype, data_attr = '<!DOCTYPE Envelope [<!ENTITY x "INT-CANARY-0815">]>', ' note="&x;"'
+        elif attack.startswith('entity expansion bomb'):
+            doctype = '<!DOCTYPE Envelope [<!ENTITY a0 "INT-CANARY-0815">' + ''.join(
+                '<!ENTITY a%d "%s">' % (i, ('&a%d;' % (i - 1)) * 10) for i in range(1, 10)) + ']>'
+            s_el = '<s>&a9;</s>'
+        env = 'http://schemas.xmlsoap.org/soap/envelope/' if pname == 'Soap11' else 'http://www.w3.org/2003/05/soap-envelope'
+        href = 'cid:att1' if by == 'Content-ID' else 'att1.bin'
+        soap = ('<?xml version="1.0"?>%s<s:Envelope xmlns:s="%s"><s:Body><echo xmlns="tns">%s<data%s><xop:Include '
+                'xmlns:xop="http://www.w3.org/2004/08/xop/include" href="%s"/></data></echo></s:Body></s:Envelope>'
+                % (doctype, env, s_el, data_attr, href))
+        part_hdr = 'Content-ID: <att1>' if by == 'Content-ID' else 'Content-ID: <>\r\nContent-Location: att1.bin'
+        body = ('--BOUND\r\nContent-Type: application/xop+xml; charset=UTF-8; type="text/xml"\r\nContent-ID: <root>\r\n\r\n'
+                '%s\r\n--BOUND\r\nContent-Type: application/octet-stream\r\n%s\r\n\r\naGVsbG8=\r\n--BOUND--\r\n'
+                % (soap, part_hdr)).encode()
+        environ = {'REQUEST_METHOD': 'POST', 'PATH_INFO': '/', 'QUERY_STRING': '', 'SERVER_NAME': 'localhost',
+                   'SERVER_PORT': '80', 'wsgi.url_scheme': 'http', 'wsgi.input': io.BytesIO(body),
+                   'CONTENT_LENGTH': str(len(body)),
+                   'CONTENT_TYPE': 'multipart/related; boundary="BOUND"; type="application/xop+xml"; start="<root>"'}
+        SEEN.clear()
+        status = []
+        out = b''.join(WsgiApplication(app)(environ, lambda s, h, e=None: status.append(s)))
+        seen = repr(SEEN.get('args'))
+        leaks = [c for c in ('INT-CANARY-0815', 'FILE-CANARY-0815') if c in seen or c.encode() in out]
+        sx.observe('leaks', leaks)
+        sx.observe('status', status)
+        if attack == 'none':
+            return status[0].startswith('200') and SEEN.get('args') is not None and SEEN['args'][0] == 'plain'
+        if attack == 'internal entity in attribute':
+            return True     # libxml2 expands internal entities in attribute values in every mode (recorded finding of entity_canaries)
+        return not leaks and len(out) < 100000
+    finally:
+        os.unlink(path)
